@@ -711,6 +711,16 @@ impl SmithNormalForm {
         }
         //let diag: Vec<i128> = (0..n).map(|j| self.rows[j][j]).collect();
         //eprintln!("diag {diag:?}")
+        // Reductions modulo h implicitly use the vectors h*e_k, which belong
+        // to the lattice but not necessarily to the span of the rows kept so far
+        // (a row whose pivot was replaced by h above has lost information).
+        // Append them (last column first) after the actual relations:
+        // they are only reached if the relations alone do not give index h.
+        for k in (0..n).rev() {
+            let mut v = vec![0; n];
+            v[k] = self.h as i128;
+            self.rows.push(v);
+        }
         // Add some vectors to reduce until class number is reached.
         for i in n..self.rows.len() {
             self.eliminate_block(i, 0..n, false);
